@@ -4,6 +4,57 @@ import sys
 import traceback
 
 
+def kill_descendants():
+    """servers and workers started by a check must not survive it"""
+    import signal, subprocess
+    try:
+        table = subprocess.run(['ps', '-eo', 'pid,ppid'], stdout=subprocess.PIPE, text=True, timeout=10).stdout.split('\n')[1:]
+        kids = {}
+        for line in table:
+            f = line.split()
+            if len(f) == 2:
+                kids.setdefault(int(f[1]), []).append(int(f[0]))
+        todo, seen = [os.getpid()], []
+        while todo:
+            for k in kids.get(todo.pop(), []):
+                seen.append(k); todo.append(k)
+        for k in seen:
+            try:
+                os.kill(k, signal.SIGKILL)
+            except OSError:
+                pass
+    except Exception:
+        pass
+
+
+def watchdog(prop, tier):
+    """Safety net: a check that is still running after its time budget has met a call of the implementation that never
+    returns at a place where the harness did not expect one.  That is reported - with the stacks of all threads in the
+    replay file - and never left hanging."""
+    import threading
+    limit = float(os.environ.get('VERIF_MAX_S') or (1500 if tier == 'quick' else 4 * 3600))
+
+    def fire():
+        import faulthandler, hashlib, io, json, tempfile
+        from harness import core
+        os.makedirs(os.path.join(core.VERIF, 'replays'), exist_ok=True)
+        with tempfile.TemporaryFile('w+') as f:
+            faulthandler.dump_traceback(file=f, all_threads=True)
+            f.seek(0)
+            stacks = f.read()
+        path = os.path.join('replays', f'{prop}-hang-{hashlib.sha1(stacks.encode()).hexdigest()[:10]}.json')
+        json.dump(dict(property=prop, tier=tier, kind='no-failing-input-found',
+                       broken=[dict(what=f'the check did not finish within {limit:.0f} s: some call of the implementation never returned', detail=stacks[-6000:])]),
+                  open(os.path.join(core.VERIF, path), 'w'), indent=1)
+        print(f'VIOLATION property={prop} replay={path} no-failing-input-found')
+        sys.stdout.flush()
+        kill_descendants()
+        os._exit(1)
+    t = threading.Timer(limit, fire)
+    t.daemon = True
+    t.start()
+
+
 def main():
     args = sys.argv[1:]
     if not args:
@@ -20,6 +71,7 @@ def main():
             replay = rest.pop(0)
     seed = int(os.environ.get('VERIF_SEED', '0') or 0)
     mod = importlib.import_module(f'harness.props.{prop.lower()}')
+    watchdog(prop, tier)
     try:
         code = mod.main(tier, seed, replay)
     except SystemExit:
@@ -38,6 +90,7 @@ def main():
         print(f'VIOLATION property={prop} replay={path} no-failing-input-found')
         code = 1
     sys.stdout.flush()
+    kill_descendants()
     os._exit(code)
 
 
